@@ -65,15 +65,15 @@ PROPS = {
     "C03": dict(probes=["v3"], functions=CANON + SERIAL + PARSER, lean=[], diff=["pipeline", "parser"], bounded=[("pipeline", "c03")]),
     "C04": dict(probes=["v3"], functions=CANON, lean=[], diff=["pipeline"], bounded=[("pipeline", "c04")]),
     "C05": dict(functions=SERIAL, lean=["serialize"], diff=["pipeline"], bounded=[("c05", None)]),
-    "C06": dict(functions=CANON + SERIAL + V3000 + V2000, lean=[], diff=["pipeline", "io"], bounded=[("c06", None)]),
-    "C07": dict(functions=V3000, lean=["v30line"], diff=["io"], bounded=[("c07", None)]),
-    "C08": dict(functions=V2000 + V3000, lean=[], diff=["io"], bounded=[("c08", None)]),
+    "C06": dict(functions=CANON + SERIAL + V3000 + V2000, lean=["v3000", "v2000"], diff=["pipeline", "io"], bounded=[("c06", None)]),
+    "C07": dict(functions=V3000, lean=["v30line", "v3000"], diff=["io"], bounded=[("c07", None)]),
+    "C08": dict(functions=V2000 + V3000, lean=["v2000"], diff=["io"], bounded=[("c08", None)]),
     "C09": dict(probes=["v5"], functions=WRITER + V3000, lean=["v30line"], diff=["io"], bounded=[("c09", None)]),
     "C10": dict(functions=PARSER, lean=[], diff=["parser"], bounded=[("c10", None)]),
     "C11": dict(probes=["v3"], functions=PARSER + CANON + SERIAL, lean=[], diff=["parser", "pipeline"], bounded=[("c11", None)]),
-    "C12": dict(functions=CANON + SERIAL, lean=[], diff=["pipeline"], bounded=[("pipeline", "c12")]),
+    "C12": dict(functions=CANON + SERIAL, lean=["relabel", "partition"], diff=["pipeline"], bounded=[("pipeline", "c12")]),
     "C13": dict(probes=[], functions=CANON, lean=["partition"], diff=["pipeline"], bounded=[("pipeline", "c13")]),
     "C14": dict(functions=CANON + SERIAL + PARSER + V3000 + V2000 + WRITER, lean=[], diff=[], bounded=[("c14", None)]),
     "C15": dict(functions=CANON + SERIAL + PARSER, lean=[], diff=["pipeline"], bounded=[("c15", None)]),
-    "C16": dict(probes=["v6"], functions=[F["permute_molecule"], F["_permute_molecule"], F["_sort_molecule_by_label"]], lean=[], diff=["pipeline"], bounded=[("c16", None)]),
+    "C16": dict(probes=["v6"], functions=[F["permute_molecule"], F["_permute_molecule"], F["_sort_molecule_by_label"]], lean=["relabel"], diff=["pipeline"], bounded=[("c16", None)]),
 }
